@@ -40,6 +40,10 @@ pub struct Obs {
     /// after a second setup on a fully populated world
     pub setups2: Option<Vec<u32>>,
     pub disposes: Option<Vec<u32>>,
+    /// the same counters when the dispatcher is set up and disposed through its `RunNow` implementation
+    /// (which is how it is driven when it is registered as a thread-local system of another dispatcher)
+    pub setups_via_run_now: Option<Vec<u32>>,
+    pub disposes_via_run_now: Option<Vec<u32>>,
     /// try_into_sendable: Some(Ok(shape)) / Some(Err(()))
     pub sendable: Option<Result<Vec<Vec<usize>>, ()>>,
     pub shape: Vec<Vec<usize>>,
@@ -175,6 +179,21 @@ pub fn observe(ops: &[Op], resmap: &[u8], need: Need) -> Obs {
     }
     if need.setup_dispose && all_ok(&o) {
         o.setup_worlds = setup_worlds(ops, resmap);
+        let ctx3 = Ctx::new(info_n, resmap.to_vec());
+        let reg3 = register(ops, &ctx3, None, false);
+        if let Ok(d3) = build(reg3.builder) {
+            let mut w = World::empty();
+            let r = catch_unwind(AssertUnwindSafe(move || {
+                let mut b: Box<dyn shred::RunNow<'static> + 'static> = Box::new(d3);
+                b.setup(&mut w);
+                b.dispose(&mut w);
+            }));
+            if let Err(p) = r {
+                o.dispatch_panic = Some(format!("setup / dispose through RunNow: {}", payload_str(&*p)));
+            }
+            o.setups_via_run_now = Some(ctx3.setups.lock().unwrap().clone());
+            o.disposes_via_run_now = Some(ctx3.disposes.lock().unwrap().clone());
+        }
     }
     o.harness_errors = ctx.errors.lock().unwrap().clone();
     o
